@@ -44,6 +44,8 @@ def expr_src(e, root):
         return "%s[_i + %d]" % (expr_src(["f", e[1]], root), e[2]) if e[2] else "%s[_i]" % expr_src(["f", e[1]], root)
     if k == "sum":
         return expr_src(["f", e[1]], root) + ".sum"
+    if k == "product":
+        return expr_src(["f", e[1]], root) + ".product"
     if k == "size":
         return expr_src(["f", e[1]], root) + ".size"
     if k == "inlist":
@@ -129,6 +131,9 @@ def field_ctor(f):
     if k == "obj":
         return "vsc.rand_attr(%s())" % f["cls"] if f.get("rand") else "vsc.attr(%s())" % f["cls"]
     if k == "olist":
+        if f.get("via_sz"):
+            # the population created by the list itself (sz=n) instead of by appends
+            return "vsc.%slist_t(%s(), sz=%d)" % ("rand_" if f.get("rand") else "", f["cls"], f["n"])
         return "vsc.%slist_t(%s())" % ("rand_" if f.get("rand") else "", f["cls"])
     if k == "list":
         el = f["elem"]
@@ -157,7 +162,7 @@ def class_src(c):
     for f in c["fields"]:
         lines.append("        self.%s = %s" % (f["name"], field_ctor(f)))
     for f in c["fields"]:
-        if f["kind"] == "olist":
+        if f["kind"] == "olist" and not f.get("via_sz"):
             lines.append("        for _ in range(%d):" % f["n"])
             lines.append("            self.%s.append(%s())" % (f["name"], f["cls"]))
     for name, items in (c.get("rangelists") or {}).items():
